@@ -38,7 +38,8 @@ type sockKit struct {
 }
 
 func newSockKit(queueSize, readTimeout int) (*sockKit, error) {
-	dir, err := os.MkdirTemp("", "vsock")
+	// run.py removes the directories of its run (a killed worker cannot)
+	dir, err := os.MkdirTemp("", "vsock-"+os.Getenv("VERIF_RUN_ID")+"-")
 	if err != nil {
 		return nil, err
 	}
